@@ -17,7 +17,7 @@ import (
 // spills" is covered; chunk files live in the engine's in-memory file model
 // (real temp files in the native replay).
 
-var zzPKs = [][]uint32{nil, {0}, {1}, {0, 1}, {1, 0}}
+var zzPKs = [][]uint32{nil, {0}, {1}, {0, 1}, {1, 0}, {2, 0, 1}, {1, 2, 0}}
 
 type zzCfg struct {
 	nrows, ncols, pk, cellLen, removed int
